@@ -14,6 +14,10 @@ LEMMAS = [
     dict(name='tiling_ordered', vars=[('st', 'iarr1'), ('ln', 'iarr1'), ('p', 'int'), ('n', 'int')], requires=TILING,
          induct=dict(var='k2', lo='0', hi='p'),
          ensures=['forall(0, k2, lambda k1: st[k1] + ln[k1] <= st[k2])']),
+    # every position of [0, n) lies in some block: induction on the number of blocks considered
+    dict(name='tiling_covers', vars=[('st', 'iarr1'), ('ln', 'iarr1'), ('p', 'int'), ('n', 'int')], requires=TILING,
+         induct=dict(var='k', lo='0', hi='p'),
+         ensures=['forall(0, st[k] + ln[k], lambda x: exists(0, k + 1, lambda r: st[r] <= x and x < st[r] + ln[r]))']),
     dict(name='tiling_bounded', vars=[('st', 'iarr1'), ('ln', 'iarr1'), ('p', 'int'), ('n', 'int')],
          requires=TILING + ['forall(0, p, lambda k2: forall(0, k2, lambda k1: st[k1] + ln[k1] <= st[k2]))'],
          ensures=['forall(0, p, lambda k: st[k] + ln[k] <= n and 0 <= st[k])']),
@@ -277,9 +281,15 @@ def transpose_contract(R, order_src, order_dst, pattern, intact):
     dbounds = []
     for k in range(R):
         dbounds += ['0', D[k]]
-    ens = ('forall(0, {P}, lambda r: forall({db}, lambda {j}: implies({st}[r] <= {ja} and {ja} < {st}[r] + {ln}[r], '
-           'dest[flatidx([{D}], [{j}])] == {f})))').format(P=P, db=', '.join(dbounds), j=', '.join(jv), st=STs, ln=LENs, ja=jv[a2],
-                                                         D=', '.join(D), f=field_at(order_dst, dstarts, jv))
+    # every position along the gathered direction lies in some member's block (closed form of the tiling: lemma tiling_covers)
+    req.append('forall(0, %s, lambda x: exists(0, %s, lambda r: %s[r] <= x and x < %s[r] + %s[r]))' % (D[a2], P, STs, STs, LENs))
+    # the property itself: every local position of the destination block holds the global field at its global index
+    ens = 'forall({db}, lambda {j}: dest[flatidx([{D}], [{j}])] == {f})'.format(
+        db=', '.join(dbounds), j=', '.join(jv), D=', '.join(D), f=field_at(order_dst, dstarts, jv))
+    # block by block first (cut): positions gathered from member r
+    ens_r = ('forall(0, {P}, lambda r: forall({db}, lambda {j}: implies({st}[r] <= {ja} and {ja} < {st}[r] + {ln}[r], '
+             'dest[flatidx([{D}], [{j}])] == {f})))').format(P=P, db=', '.join(dbounds), j=', '.join(jv), st=STs, ln=LENs, ja=jv[a2],
+                                                           D=', '.join(D), f=field_at(order_dst, dstarts, jv))
     params = {'self': {'__class__': L + '::LayoutHandler', '_nprocsList': ('list', ['int'] * len(pattern)),
                        '_subcomms': ('list', ['comm'] * len(pattern))},
               'source': 'arr1', 'dest': 'arr1', 'layout_source': layout_spec(R, order_src, 'src'),
@@ -288,7 +298,7 @@ def transpose_contract(R, order_src, order_dst, pattern, intact):
         params['buf'] = 'arr1'
     for k, ch in enumerate(pattern):
         req.append('self._nprocsList[%d] %s' % (k, '> 1' if ch == '2' else '== 1'))
-    return dict(params=params, requires=req, ensures=[ens], modifies=['dest', rcv])
+    return dict(params=params, requires=req, ensures=[ens_r, ens], modifies=['dest', rcv])
 
 
 def local_contract(R, order_src, order_dst, pattern, intact):
